@@ -528,6 +528,8 @@ def run(ctx) -> None:
 from ..selftest import V  # noqa: E402
 
 SELFTEST = [
+    V("product() folds the list in reversed order (seeded C07-m8)", PS, "    for op in lst[-1::-1]:\n        res = op * res\n", "    for op in lst:\n        res = op * res\n", "fire", "R07.2"),
+    V("product() folds forward with right multiplication", PS, "    for op in lst[-1::-1]:\n        res = op * res\n", "    for op in lst:\n        res = res * op\n", "silent", "R07.2"),
     V("tabulated k-points mapped with R instead of R.T in a vectorised rewrite (seeded C07-m6)", TAB, '        kpoints = [sym.transform_reduced_vector(k, self.recip_lattice) for k in self.kpoints]\n', '        kpoints_cart = self.kpoints @ self.recip_lattice\n        kpoints_cart = (kpoints_cart @ sym.R) * (sym.iTR * sym.iInv)\n        kpoints = kpoints_cart @ np.linalg.inv(self.recip_lattice)\n', "fire", "R07.1"),
     V("tabulated k-points mapped by the vectorised chain of transform_reduced_vector", TAB, '        kpoints = [sym.transform_reduced_vector(k, self.recip_lattice) for k in self.kpoints]\n', '        kpoints_cart = self.kpoints @ self.recip_lattice\n        kpoints_cart = (kpoints_cart @ sym.R.T) * (sym.iTR * sym.iInv)\n        kpoints = kpoints_cart @ np.linalg.inv(self.recip_lattice)\n', "silent", "R07.1"),
     V("seeded C07-m2: k-resolved static result gets the TR transform in the inversion slot", "wannierberri/calculators/static.py",
